@@ -356,6 +356,7 @@ theorem exec_eqv (t : Nat) (p : Prog) : ∀ w, (exec t p w).world.Eqv w := by
   induction p with
   | skip => intro w; exact World.Eqv.refl w
   | raise => intro w; exact World.Eqv.refl w
+  | fail e => intro w; exact World.Eqv.refl w
   | probe m => intro w; exact World.Eqv.refl w
   | try_ p ih => intro w; exact ih w
   | seq p q ihp ihq =>
@@ -567,6 +568,7 @@ theorem execI_sim (t : Nat) (p : Prog) : ∀ (env : Env) (w ws : World), p.threa
   induction p with
   | skip => intro env w ws _ henv h; exact ⟨rfl, rfl, h, henv⟩
   | raise => intro env w ws _ henv h; exact ⟨rfl, rfl, h, henv⟩
+  | fail e => intro env w ws _ henv h; exact ⟨rfl, rfl, h, henv⟩
   | probe m =>
     intro env w ws _ henv h
     obtain ⟨h1, h2⟩ := interfere_sim henv h
